@@ -13,6 +13,8 @@ CLAIMS = {
          "not decided: well-formedness of everything emitted; functions not yet under contract", "3 C03"),
  "C05": ("newlineToSpace yields a same-length copy without CR or LF and appendHeaderLine appends nothing or exactly one line whose only CR/LF bytes are its own terminator, for all byte strings; in the header serialisers (RequestHeader/ResponseHeader/Trailer.AppendBytes) every raw append of non-constant bytes is proved free of CR and LF and raw appenders may only fill standalone buffers, so every line break in the output is one the serialiser wrote itself",
          "not decided: the request line (method, request URI) is application-controlled and outside the property's list - reported as exempt in the evidence; consts.StatusLine is an assumed contract; count of fields is by construction of the call-site discipline, not a counted postcondition", "3 C05"),
+ "C09": ("every Reset/ResetWithoutConn/ResetBody method of RequestContext, Request, Response, RequestHeader, ResponseHeader, URI, Args, Cookie and Trailer establishes, from ANY pre-state (all histories), a fresh-equivalent predicate that is generated on every run from the struct's current go/types field list (a new field without a reset line fails a named obligation); overrides are listed with reasons in the contract files and the evidence",
+         "not decided: objects migrating between goroutines through sync.Pool; bodyStream/chunkedBodyWriter/clientConn resets and the Acquire/Release wrappers are not yet under contract; stale capacity beyond len is treated as unobservable; ownership (request and response of one context do not share trailer/body objects) is a precondition. Known finding: exiled flag survives reset", "3 C09"),
  "C07": ("normalizePath: for every dst/src (not sharing an array) the result starts with '/', contains no '//', '/./', '/../' and does not end in '/..' - unbounded proof by loop invariants; its helpers addLeadingSlash and decodeArgAppendNoPlus verified against append-style contracts",
          "not decided: equality with the decode-then-stack reference; CleanPath (not yet under contract); non-overlap of URI's internal buffers is assumed", "3 C07"),
 }
